@@ -440,6 +440,86 @@ theorem unreadable_file_witness :
       ((loadRepo .full [a, { readFails := false, stored := .sealed (.file f2) }]).toOption.map (·.has .data 3)) = some true := by
   decide
 
+/-! #### The `supersedes` field is ignored by loading
+
+An index file may carry `supersedes`: ids of index files it claims to replace (rustic never writes the field; old restic
+versions and other tools do).  `GlobalIndex::new_from_collector` hands `index.packs` of EVERY streamed file to the collector
+and looks at nothing else, so a file stays loaded whether or not another file (or it itself) names it — e.g. after an index
+rewrite that was interrupted before the old files were removed, the blobs the new files do not list again are still found.
+Statements: two sets of index files that agree position by position on `packs` / `packs_to_delete` (`SameListing`: ANY
+`supersedes` lists on either side — erased, replaced, naming present files, absent files, themselves, each other) give the
+same index: as a value for the executable model, and the same set of possible outcomes (`Loaded` / `LoadOutcome` /
+`RepoOutcome`) for every mode, every lookup, the totals, with load faults and in every stream order. -/
+
+/-- For all sets of index files: the loaded index — lookups (`has`, `get_id` → pack, offset, length), size totals, in every
+index mode (`m`; also after `drop_data`) — is that of the same files with every `supersedes` list erased or replaced by any
+other list.  Also for every outcome the unstable sort allows (`Loaded`). -/
+theorem supersedes_is_ignored (m : IndexType) (files files' : List IndexFile) (h : Pointwise SameListing files files') :
+    load m files = load m files' ∧
+      (∀ idx, Loaded m files idx ↔ Loaded m files' idx) ∧
+      (∀ t id, (load m files).has t id = (load m files').has t id ∧ (load m files).getId t id = (load m files').getId t id) ∧
+      (∀ t, (load m files).totalSize t = (load m files').totalSize t) ∧
+      (load m files).dropData = (load m files').dropData := by
+  have e := load_congr m h
+  refine ⟨e, fun idx => ?_, fun t id => ?_, fun t => ?_, ?_⟩
+  · unfold Loaded; rw [unmarked_congr h]
+  · rw [e]; exact ⟨rfl, rfl⟩
+  · rw [e]
+  · rw [e]
+
+/-- … in particular with every list set by an arbitrary function of the file (`fun _ => none`: erased). -/
+theorem supersedes_replaced (m : IndexType) (files : List IndexFile) (g : IndexFile → Option (List Nat)) :
+    load m (files.map fun f => { f with supersedes := g f }) = load m files := by
+  refine load_congr m ?_
+  induction files with
+  | nil => exact .nil
+  | cons f fs ih => exact .cons ⟨rfl, rfl⟩ ih
+
+/-- The same over a stream of per-file fetch results (some of which may be errors): same first error or same index. -/
+theorem supersedes_is_ignored_stream (m : IndexType) (rs rs' : List (Except LoadErr IndexFile))
+    (h : Pointwise SameResult rs rs') :
+    loadResults m rs = loadResults m rs' ∧ ∀ out, LoadOutcome m rs out ↔ LoadOutcome m rs' out := by
+  refine ⟨loadResults_congr m h, fun out => ?_⟩
+  cases out with
+  | error e => simp only [LoadOutcome, firstError_congr h]
+  | ok idx => simp only [LoadOutcome, Loaded, firstError_congr h, unmarked_congr (oks_congr h)]
+
+/-- The same for a repository: two listings whose files fetch to the same thing up to `supersedes` lists have the same
+executable result and the same set of possible outcomes over all stream orders. -/
+theorem supersedes_is_ignored_repo (m : IndexType) (listed listed' : List RepoFile)
+    (h : Pointwise (fun a b => SameResult (getFile a) (getFile b)) listed listed') :
+    loadRepo m listed = loadRepo m listed' ∧ ∀ out, RepoOutcome m listed out ↔ RepoOutcome m listed' out := by
+  refine ⟨loadResults_congr m (forall₂_map_getFile h), fun out => ?_⟩
+  have key : ∀ {l l' : List RepoFile}, Pointwise (fun a b => SameResult (getFile a) (getFile b)) l l' →
+      RepoOutcome m l out → RepoOutcome m l' out := by
+    rintro l l' hl ⟨stream, hp, ho⟩
+    obtain ⟨s', hp', hf⟩ := forall₂_of_perm hp hl
+    exact ⟨s', hp', ((supersedes_is_ignored_stream m _ _ (forall₂_map_getFile hf)).2 out).mp ho⟩
+  exact ⟨key h, key (forall₂_symm (fun _ _ hab => hab.symm) h)⟩
+
+/-- what a loader that HONOURED the field would do (old restic): skip every file whose id some file names -/
+def loadSkippingSuperseded (m : IndexType) (files : List (Nat × IndexFile)) : Index :=
+  let named := files.flatMap fun f => f.2.supersedes.getD []
+  load m ((files.filter fun f => !named.contains f.1).map (·.2))
+
+/-- Witness (an index rewrite caught half-way): file 7 lists blob 1; file 8 names file 7 in `supersedes` and lists blob 3 only.
+Loading finds both blobs and counts both packs in every mode, exactly as without the list; a loader honouring the list
+would lose blob 1 and its pack's size — also when a file names itself, two files name each other, or the named file is absent
+(then nothing is skipped either way). -/
+theorem superseded_file_is_loaded_witness :
+    let old : IndexFile := { packs := [{ id := 10, size := none, blobs := [⟨1, .data, ⟨0, 40, none⟩⟩] }], packsToDelete := [] }
+    let new (s : List Nat) : IndexFile :=
+      { supersedes := some s, packs := [{ id := 13, size := none, blobs := [⟨3, .data, ⟨0, 61, none⟩⟩] }], packsToDelete := [] }
+    (∀ m ∈ [IndexType.full, .dataIds], ∀ s ∈ [[7], [8], [7, 8], [99], []],
+        (load m [old, new s]).has .data 1 = true ∧ (load m [old, new s]).has .data 3 = true ∧
+        (load m [old, new s]).totalSize .data = (36 + 40 + 37) + (36 + 61 + 37)) ∧
+      (load .full [old, new [7]]).getId .data 1 = some ⟨.data, 10, ⟨0, 40, none⟩⟩ ∧
+      (loadSkippingSuperseded .full [(7, old), (8, new [7])]).has .data 1 = false ∧
+      (loadSkippingSuperseded .full [(7, old), (8, new [7])]).totalSize .data = 36 + 61 + 37 ∧
+      (loadSkippingSuperseded .full [(7, { old with supersedes := some [8] }), (8, new [7])]).has .data 3 = false ∧
+      (loadSkippingSuperseded .full [(7, old), (8, new [99])]).has .data 1 = true := by
+  decide
+
 end Loading
 
 /-! ### non-vacuity -/
